@@ -40,13 +40,23 @@
                      run (ct_inv_b / ct_holds_b are still also checked on every dumped real tree).
                      ct_query_rows / ct_query_total: one row per sample, never out of fuel (no hypothesis on d).
                      ct_scale100_refuted: the model reproduces defect F25 on the tree the old code built.
+     dispatcher      (wave 4) Knn_Wrapper_Model.find_neighbors_core: the dispatcher find_neighbors with the result of the
+                     tree search as an ARBITRARY parameter and the exhaustive-search fallback of fix F48 (any row of
+                     the wrong size -> the whole table recomputed by brute force).  wrapper_exact / wrapper_fired_exact:
+                     for EVERY callback (no metric assumption) a fired fallback returns a table whose every row is an
+                     exact k-nearest row of the callback values as they are; wrapper_all_exact: when it does not fire
+                     and the tree rows are exact (a metric), likewise; wrapper_tree_exact_unchanged /
+                     wrapper_vptree_metric: an exact table never fires it.  wrapper_rowwise_refuted: recomputing only
+                     the rows of the wrong size is wrong.  fn_shape_src_is_model: the shape of the fallback block read
+                     from the source by translate/t_knn_wrapper.py is the one the model transcribes.
      *_checked_*     the same theorems with their hypotheses replaced by the boolean
                      checkers the harness runs on what it observes (dumped real VP-tree,
                      observed nth_element result, observed candidate list). *)
 From Coq Require Import List ZArith Bool Lia Permutation Sorted.
 From TK Require Import Knn_Spec Knn_Brute_Model Knn_Brute_Proof Knn_VpTree_Model Knn_VpTree_Proof
                        Knn_CoverSel_Model Knn_CoverSel_Proof CoverTree_Model CoverTree_Proof CoverTree_Proof_Total
-                       CoverTree_Refuted CoverTree_Build_Model Knn_CoverQuery_Proof CoverTree_Proof_Audit CoverTree_Build_Proof Knn_Scale.
+                       CoverTree_Refuted CoverTree_Build_Model Knn_CoverQuery_Proof CoverTree_Proof_Audit CoverTree_Build_Proof Knn_Scale
+                       Knn_Wrapper_Model Knn_Wrapper_Proof KnnWrapper.
 Import ListNotations.
 Local Open Scope Z_scope.
 
@@ -539,3 +549,80 @@ Proof.
   split; [apply metric_b_sound; vm_compute; reflexivity|]. split; [lia|]. split; [lia|].
   right. vm_compute. reflexivity.
 Qed.
+
+(* ---------------- the dispatcher find_neighbors and its exhaustive-search fallback (wave 4) ---------------- *)
+
+(* the whole contract, for every callback d, every tree result, every admissible nth_element answer per row *)
+Theorem wrapper_exact : forall m d N k0 tree_rows sels,
+  (1 <= N)%nat -> sels_ok d N (fn_clamp N k0) sels ->
+  exists fired rows,
+    find_neighbors_core m tree_rows sels N k0 = Some (fired, rows) /\
+    (fired = negb (is_brute m) && fn_incomplete (fn_clamp N k0) tree_rows) /\
+    (is_brute m || fired = true -> rows_exact d N (fn_clamp N k0) rows) /\
+    (is_brute m || fired = false -> rows = tree_rows /\ Forall (fun r => length r = fn_clamp N k0) rows).
+Proof. exact wrapper_exact_lemma. Qed.
+Print Assumptions wrapper_exact.
+
+(* whenever the fallback fires, EVERY returned row is an exact k-NN row of the callback values as they are *)
+Theorem wrapper_fired_exact : forall m d N k tree_rows sels rows,
+  (k < N)%nat -> sels_ok d N k sels ->
+  find_neighbors_core m tree_rows sels N k = Some (true, rows) ->
+  rows_exact d N k rows.
+Proof. exact wrapper_fired_exact_lemma. Qed.
+Print Assumptions wrapper_fired_exact.
+
+(* whenever it does not fire and the tree rows are exact (callback a metric), likewise *)
+Theorem wrapper_all_exact : forall m d N k tree_rows sels,
+  (k < N)%nat -> sels_ok d N k sels ->
+  (fn_incomplete k tree_rows = false -> rows_exact d N k tree_rows) ->
+  exists fired rows, find_neighbors_core m tree_rows sels N k = Some (fired, rows) /\ rows_exact d N k rows.
+Proof. exact wrapper_all_exact_lemma. Qed.
+Print Assumptions wrapper_all_exact.
+
+Theorem wrapper_tree_exact_unchanged : forall m d N k tree_rows sels,
+  (k < N)%nat -> is_brute m = false -> rows_exact d N k tree_rows ->
+  find_neighbors_core m tree_rows sels N k = Some (false, tree_rows).
+Proof. exact wrapper_tree_exact_unchanged_lemma. Qed.
+Print Assumptions wrapper_tree_exact_unchanged.
+
+Theorem wrapper_vptree_metric : forall d N t k tree_rows sels,
+  metric_on (in_range N) d -> vp_inv d t -> Permutation (items t) (samples N) -> (k < N)%nat ->
+  Forall2 (fun q l => vp_row_fixed d t q k = Some l) (samples N) tree_rows ->
+  find_neighbors_core MVpTree tree_rows sels N k = Some (false, tree_rows) /\ rows_exact d N k tree_rows.
+Proof. exact wrapper_vptree_metric_lemma. Qed.
+Print Assumptions wrapper_vptree_metric.
+
+Theorem all_knn_b_reflects : forall d N k qs rows,
+  all_knn_b d N k qs rows = true <-> Forall2 (fun q l => is_knn d N q k l) qs rows.
+Proof. exact all_knn_b_spec. Qed.
+Print Assumptions all_knn_b_reflects.
+
+(* recomputing only the rows whose size is wrong (seeded change C02_4) keeps wrong rows of the right size *)
+Theorem wrapper_rowwise_refuted :
+  exists m d N k tree_rows sels rows,
+    (k < N)%nat /\ sels_ok d N k sels /\
+    find_neighbors_rowwise m tree_rows sels N k = Some (true, rows) /\
+    Forall (fun r => length r = k) rows /\
+    ~ rows_exact d N k rows /\
+    exists rows', find_neighbors_core m tree_rows sels N k = Some (true, rows') /\ rows_exact d N k rows'.
+Proof. exact wrapper_rowwise_refuted_lemma. Qed.
+Print Assumptions wrapper_rowwise_refuted.
+
+(* non-vacuity: a NON-metric callback (nm_d 0 1 = 9 > nm_d 0 2 + nm_d 2 1 = 4 + 1; metric_b is false) and a tree table
+   with an empty row and a wrong row of the right size: the hypotheses of wrapper_fired_exact hold and the fallback
+   fires; an exact table does not fire it; Brute with k0 = 7 > N - 1 is clamped to 2 *)
+Definition nm_d : dist := fun a b =>
+  if (a =? b) then 0 else if ((a + b) =? 1) then 9 else if ((a + b) =? 2) then 4 else 1.
+Example wrapper_fired_nonvacuous :
+  (1 < 3)%nat /\ sels_ok nm_d 3 1 (sels_ref nm_d 3) /\ metric_b nm_d 3 = false /\
+  find_neighbors_core MCoverTree [ []; [0]; [1] ] (sels_ref nm_d 3) 3 1 = Some (true, [ [2]; [2]; [1] ]) /\
+  find_neighbors_core MVpTree [ [2]; [2]; [1] ] (sels_ref nm_d 3) 3 1 = Some (false, [ [2]; [2]; [1] ]) /\
+  find_neighbors_core MBrute [] (sels_ref nm_d 3) 3 7 = Some (false, [ [2; 1]; [2; 0]; [1; 0] ]).
+Proof.
+  split; [lia|]. split; [apply sels_ref_ok|]. repeat split; vm_compute; reflexivity.
+Qed.
+
+(* the tie of the dispatcher model to the source text: the table generated from neighbors.hpp (coq/gen/KnnWrapper.v) *)
+Theorem fn_shape_src_is_model : fn_shape_src = fn_shape_model.
+Proof. reflexivity. Qed.
+Print Assumptions fn_shape_src_is_model.
